@@ -685,7 +685,187 @@ def rule_count_bounds(ctx: Ctx, rep: Report) -> None:
     rep.floor(rule, 8)
 
 
+def rule_witness_gate(ctx: Ctx, rep: Report) -> None:
+    """C05.witness_gate: Tx.serialize leaves the whole witness section out when no
+    input `is_segwit`; what it leaves out must be what parse puts back -- an
+    empty stack per input, and only that. So TxIn.is_segwit has to answer
+    "the stack has an element", for every element: decided by folding its
+    return expression over representative stacks (finite case split on the
+    only things the expression can look at: the count and the emptiness of
+    the elements)."""
+    from sa.canon import expand
+    from sa.consts import UNKNOWN
+    rule = "C05.witness_gate"
+    fi = ctx.func("btclib.tx.tx_in.TxIn.is_segwit")
+    rets = [n for n in own_nodes(fi.node) if isinstance(n, ast.Return) and n.value is not None]
+    if len(rets) != 1:
+        rep.unknown(rule, "TxIn.is_segwit", fi.where(), f"{len(rets)} return statements: not the single-expression shape this rule folds")
+        return
+    text = expand(fi, rets[0].value)
+    cases = [("[]", False), ("[b'']", True), ("[b'', b'']", True), ("[b'\\x01']", True), ("[b'', b'\\x01']", True)]
+    for lit, want in cases:
+        t = text.replace("self.script_witness.stack", lit)
+        if "self" in t:
+            rep.unknown(rule, f"TxIn.is_segwit:{lit}", fi.where(rets[0]), f"`{text}` reads more than the witness stack")
+            continue
+        v = ctx.folder.try_fold(ast.parse(t, mode="eval").body, fi.module)
+        if v is UNKNOWN:
+            rep.unknown(rule, f"TxIn.is_segwit:{lit}", fi.where(rets[0]), f"`{t}` does not fold")
+            continue
+        rep.ob(rule, f"TxIn.is_segwit:{lit}", bool(v) == want, fi.where(rets[0]),
+               f"`{text}` on stack {lit} is {bool(v)}" + ("" if bool(v) == want else
+               f": serialize drops a witness of {lit}, so the transaction does not parse back (and its wtxid, size and weight are those of another one)"))
+    # Tx.is_segwit is the disjunction over the inputs, and serialize's gate is Tx.is_segwit
+    tx = ctx.func("btclib.tx.tx.Tx.is_segwit")
+    r2 = [n for n in own_nodes(tx.node) if isinstance(n, ast.Return) and n.value is not None]
+    ok = len(r2) == 1 and isinstance(r2[0].value, ast.Call) and call_name(r2[0].value) == "any" and "is_segwit" in norm(r2[0].value) and "self.vin" in norm(r2[0].value)
+    rep.ob(rule, "Tx.is_segwit:any_input", ok, tx.where(), "a transaction is segwit when any input is")
+    rep.floor(rule, 1)
+
+
+def _key_checkers(ctx: Ctx) -> set[str]:
+    """Functions (k, v, ...) of btclib.psbt that refuse a key longer than its
+    type byte: directly (`len(k) != 1` refusal), or by handing k to one that does."""
+    from sa.ranges import refusal_constraints
+    out: set[str] = set()
+    cands = [f for m in ("btclib.psbt.psbt_utils", "btclib.psbt.psbt_in", "btclib.psbt.psbt_out", "btclib.psbt.psbt")
+             for f in ctx.module(m).functions.values() if len(f.params()) >= 2 and "." not in f.qualname.split(m + ".", 1)[1]]
+    for f in cands:
+        k = f.params()[0]
+        if any(c.subject == f"len({k})" and ((c.op == "!=" and c.value == 1) or (c.op == ">" and c.value == 1) or (c.op == ">=" and c.value == 2))
+               for c in refusal_constraints(ctx, f)):
+            out.add(f.qualname)
+    changed = True
+    while changed:
+        changed = False
+        for f in cands:
+            if f.qualname in out:
+                continue
+            k = f.params()[0]
+            g = ctx.cfg(f)
+            for c in own_nodes(f.node):
+                if isinstance(c, ast.Call) and c.args and isinstance(c.args[0], ast.Name) and c.args[0].id == k \
+                        and ctx.resolve_call(f, c) in out and ctx.unconditional(g, c):
+                    out.add(f.qualname)
+                    changed = True
+                    break
+    return out
+
+
+def _arms(loop: ast.For) -> list[tuple[str, list[ast.stmt]]]:
+    """Leaf arms of the if/elif chain(s) in the loop body: (test text, body)."""
+    out = []
+
+    def chain(n: ast.If, neg: list[str]) -> None:
+        out.append((norm(n.test), n.body))
+        if len(n.orelse) == 1 and isinstance(n.orelse[0], ast.If):
+            chain(n.orelse[0], neg + [norm(n.test)])
+        elif n.orelse:
+            out.append(("else", n.orelse))
+
+    for st in loop.body:
+        if isinstance(st, ast.If):
+            chain(st, [])
+    return out
+
+
+def rule_psbt_whole_key(ctx: Ctx, rep: Report) -> None:
+    """C05.psbt_whole_key: every arm of a PSBT map's parse loop accounts for the
+    whole key -- hands `k` to a deserializer that refuses key data, keeps the
+    key data (`k[1:]`), files the pair under `k`, or raises. An arm that reads
+    only `v` accepts `<type><anything>` and writes back `<type>`: a pair is
+    renamed, and two pairs of one type collapse into one. An arm that reads
+    nothing needs a pre-reader that examines *every* key of the type."""
+    rule = "C05.psbt_whole_key"
+    checkers = _key_checkers(ctx)
+    if len(checkers) < 6:
+        raise AnalysisError(f"psbt key-checking deserializers not recognised: {sorted(checkers)}")
+    loops = []
+    for q in ("btclib.psbt.psbt._parse_global_map", "btclib.psbt.psbt_in.PsbtIn.parse", "btclib.psbt.psbt_out.PsbtOut.parse"):
+        fi = ctx.func(q)
+        for n in own_nodes(fi.node):
+            if isinstance(n, ast.For) and isinstance(n.target, ast.Tuple) and len(n.target.elts) == 2 and isinstance(n.iter, ast.Call) \
+                    and call_name(n.iter) == "items" and all(isinstance(e, ast.Name) for e in n.target.elts):
+                loops.append((fi, n))
+    if len(loops) != 3:
+        raise AnalysisError(f"psbt map parse loops: found {len(loops)}, expected 3")
+    n_arms = 0
+    for fi, loop in loops:
+        k, v = (e.id for e in loop.target.elts)
+        # locals bound from a dispatch table row: `field, what, deserialize = TABLE[type_]`, `(x := TABLE.get(..))`
+        for test, body in _arms(loop):
+            n_arms += 1
+            key = f"{fi.qualname}:[{test[:60]}]"
+            nodes = [x for st in body for x in ast.walk(st)]
+            if all(isinstance(st, ast.Raise) for st in body) or any(isinstance(x, ast.Raise) for x in nodes) and not any(isinstance(x, ast.Name) and x.id == v for x in nodes):
+                rep.ob(rule, key, True, fi.where(body[0]), "refuses")
+                continue
+            whole_call = [c for c in nodes if isinstance(c, ast.Call) and any(isinstance(a, ast.Name) and a.id == k for a in c.args)]
+            keydata = [x for x in nodes if isinstance(x, ast.Subscript) and isinstance(x.value, ast.Name) and x.value.id == k
+                       and isinstance(x.slice, ast.Slice) and x.slice.lower is not None and norm(x.slice.lower) == "1" and x.slice.upper is None]
+            filed = [x for x in nodes if isinstance(x, ast.Subscript) and isinstance(x.ctx, ast.Store) and isinstance(x.slice, ast.Name) and x.slice.id == k]
+            uses_v = any(isinstance(x, ast.Name) and x.id == v for x in nodes)
+            if whole_call:
+                bad = []
+                for c in whole_call:
+                    t = ctx.resolve_call(fi, c)
+                    if t in ctx.prog.functions:
+                        if t not in checkers:
+                            bad.append(norm(c.func))
+                    # a callee taken from a dispatch table: the tables' deserializers are checked below, by name
+                rep.ob(rule, key, not bad, fi.where(body[0]), "hands the whole key to a deserializer that refuses key data" if not bad else
+                       f"hands the key to {bad}, which does not refuse a key longer than the type byte")
+            elif keydata or filed:
+                rep.ob(rule, key, True, fi.where(body[0]), "keeps the key data" if keydata else "files the pair under its whole key")
+            elif uses_v:
+                rep.ob(rule, key, False, fi.where(body[0]), f"reads `{v}` and never `{k}`: `<type><key data>` is accepted and written back as `<type>` -- the pair is renamed, and two of one type collapse")
+            else:
+                # nothing read here: some pre-reader must look at every key of this type
+                consts = {x.id for x in ast.walk(ast.parse(test, mode="eval")) if isinstance(x, ast.Name) and x.id.isupper()} if test != "else" else set()
+                pre = []
+                for f2 in fi.module.functions.values():
+                    for n2 in own_nodes(f2.node):
+                        if not (isinstance(n2, ast.For) and isinstance(n2.target, ast.Tuple) and len(n2.target.elts) == 2 and f2 is not fi):
+                            continue
+                        k2 = n2.target.elts[0].id if isinstance(n2.target.elts[0], ast.Name) else None
+                        inner = [x for st in n2.body for x in ast.walk(st)]
+                        if not consts or not any(isinstance(x, ast.Name) and x.id in consts for x in inner):
+                            continue
+                        early = [x for x in inner if isinstance(x, (ast.Return, ast.Break))]
+                        checks = [c for c in inner if isinstance(c, ast.Call) and c.args and isinstance(c.args[0], ast.Name) and c.args[0].id == k2
+                                  and ctx.resolve_call(f2, c) in checkers]
+                        pre.append((f2, bool(checks) and not early, early))
+                ok = any(p[1] for p in pre)
+                rep.ob(rule, key, ok, fi.where(body[0]),
+                       f"read by {[p[0].qualname for p in pre if p[1]]}, which checks every key of the type" if ok else
+                       ("no pre-reader for this type: the pair is dropped" if not pre else
+                        f"{pre[0][0].qualname} stops at the first key of the type it meets (line {pre[0][2][0].lineno if pre[0][2] else '?'}): a second key of that type, with key data, is dropped -- or refused, if the map yields it first"))
+    # the deserializers named in the dispatch tables refuse key data too
+    for modname in ("btclib.psbt.psbt_in", "btclib.psbt.psbt_out", "btclib.psbt.psbt"):
+        mi = ctx.module(modname)
+        for tname in ("_WHOLE_VALUE_FIELDS", "_V2_GLOBAL_PARSERS", "_SP_FIELDS"):
+            tab = ctx.const(modname, tname) if tname in mi.assigns else UNKNOWN
+            if tab is UNKNOWN or not isinstance(tab, dict):
+                continue
+            for t, row in tab.items():
+                d = row[-1] if isinstance(row, (tuple, list)) else row
+                if not isinstance(d, Ref):
+                    continue
+                e = ast.parse(d.text, mode="eval").body
+                if isinstance(e, ast.Lambda):
+                    # lambda k, v, what: f(k, v, what, 4): judged by the function its first parameter is handed to
+                    k0 = e.args.args[0].arg if e.args.args else None
+                    inner = [c for c in ast.walk(e.body) if isinstance(c, ast.Call) and c.args and isinstance(c.args[0], ast.Name) and c.args[0].id == k0]
+                    q = ctx.prog.resolve_name(mi, inner[0].func) if inner else None
+                else:
+                    q = ctx.prog.resolve_name(mi, e)
+                rep.ob(rule, f"{modname}.{tname}[{t!r}]", q in checkers, f"{mi.relpath}:1", f"{d.text} refuses a key longer than the type byte" if q in checkers else f"{d.text} does not check the key length")
+    rep.floor(rule, 30)
+
+
 RULES = [
+    ("C05.psbt_whole_key", rule_psbt_whole_key),
+    ("C05.witness_gate", rule_witness_gate),
     ("C05.layout", rule_layout),
     ("C05.compactsize", rule_compactsize),
     ("C05.whole_object", rule_whole_object),
@@ -707,6 +887,14 @@ def _flip_signed(qual: str, index: int = 0):
 
 
 CONTROLS = [
+    {"rule": "C05.psbt_whole_key", "name": "the version pre-reader stops at the first key of its type (F11)", "module": "btclib.psbt.psbt",
+     "edit": lambda ctx: M.sub_expr(ctx, "btclib.psbt.psbt._global_version", lambda n: isinstance(n, ast.Assign) and isinstance(n.value, ast.Call) and call_name(n.value) == "deserialize_sized_int",
+                                    lambda n: "return " + norm(n.value))},
+    {"rule": "C05.psbt_whole_key", "name": "the taproot tree is read without its key (F12)", "module": "btclib.psbt.psbt_out",
+     "edit": lambda ctx: M.sub_expr(ctx, "btclib.psbt.psbt_out.PsbtOut.parse", lambda n: isinstance(n, ast.Call) and call_name(n) == "parse_taproot_tree",
+                                    "parse_taproot_tree(v)")},
+    {"rule": "C05.witness_gate", "name": "an all-empty witness stack is not a witness", "module": "btclib.tx.tx_in",
+     "edit": lambda ctx: M.sub_expr(ctx, "btclib.tx.tx_in.TxIn.is_segwit", M.is_text("bool(self.script_witness.stack)"), "any(self.script_witness.stack)")},
     {"rule": "C05.count_bounds", "name": "Headers.parse refuses a full message", "module": "btclib.p2p.inventory",
      "edit": lambda ctx: M.sub_expr(ctx, "btclib.p2p.inventory.Headers.parse", M.is_text("count > MAX_HEADERS_RESULTS"), "count >= MAX_HEADERS_RESULTS")},
     {"rule": "C05.layout", "name": "TxOut.parse reads value unsigned", "module": "btclib.tx.tx_out",
